@@ -35,10 +35,10 @@ UNITS = {
         ]),
     'V-ordermap': dict(
         tmpl='ordermap.rs.tmpl', props=['C13'],
-        functions=['OrderMap::get', 'OrderMap::len', 'OrderMap::is_empty', 'OrderMap::new', 'OrderMap::get_item',
-                   'OrderMap::set_item'],
+        functions=['OrderMap::get', 'OrderMap::len', 'OrderMap::is_empty', 'OrderMap::new', 'OrderMap::singleton',
+                   'OrderMap::get_item', 'OrderMap::set_item'],
         assumptions=[
-            'Verus/Z3 trusted; vstd specs of Vec::{new,len,is_empty,get,index_mut}, slice iteration and PartialEq::eq (r == a.eq_spec(b) when K::obeys_eq_spec())',
+            'Verus/Z3 trusted; vstd specs of Vec::{new,len,is_empty,get,index_mut}, the vec! macro, slice iteration and PartialEq::eq (r == a.eq_spec(b) when K::obeys_eq_spec())',
             'V-ordermap: requires K::obeys_eq_spec() — the key type\'s == is a function of its operands (true of css::Value::eq, which is itself outside this unit)',
             'V-ordermap: listed rewrite — the for loop\'s iterator is named (`for (k, v) in it: &self.0`) so that the invariant can mention its position',
         ]),
